@@ -369,10 +369,12 @@ class DataFile:
     elif isinstance(max_row_count, str) and max_row_count == "MNR":
       try:
         self.max_row_count = int(self.gsi.MNR)
+        if self.max_row_count <= 0:
+          raise ValueError("MNR must be a positive integer")
         LOGGER.debug("GSI MNR: %s", self.gsi.MNR)
       except ValueError:
         LOGGER.error("Invalid MNR value: %s", self.gsi.MNR)
-        self.start_offset = DEFAULT_TELETEXT_ROWS
+        self.max_row_count = DEFAULT_TELETEXT_ROWS
     else:
       self.max_row_count = max_row_count
 
